@@ -18,6 +18,7 @@ import (
 	"bufio"
 	"bytes"
 	"encoding/binary"
+	"encoding/json"
 	"errors"
 	"flag"
 	"fmt"
@@ -166,6 +167,12 @@ func (f *frFields) setBody(b []byte) {
 		m = 16
 	}
 	f.Bsuf = ints(b[len(b)-m:])
+}
+
+func frSameFields(a, b frFields) bool {
+	ja, _ := json.Marshal(a)
+	jb, _ := json.Marshal(b)
+	return bytes.Equal(ja, jb)
 }
 
 func frHalves(v uint32) (int, int) { return int(v >> 16), int(v & 0xffff) }
@@ -476,6 +483,11 @@ func frRunRead(tw *TraceW, t int, c *frReadCase, o frOpts) {
 		max = 16384
 	}
 	x := frXRead(full, uint32(max))
+	// compression only: when x/net reports exactly what the code reported, the fields are not logged twice
+	if xf, ok := x["f"].(frFields); ok && x["res"] == "ok" && res == "ok" && frSameFields(xf, g) {
+		x["same"] = 1
+		x["f"] = map[string]any{}
+	}
 	tw.Emit(t, map[string]any{"ev": "read", "src": c.Src, "api": api, "max": max, "sent": frB2i(c.Sent), "post": frB2i(c.Post),
 		"in": frDescribe(c.In), "res": res, "panic": pan, "consumed": consumed, "next": next, "g": g,
 		"alloc": alloc, "pool": pool, "dupacq": dup, "x": x})
